@@ -64,6 +64,9 @@ Proof. induction l; destruct i; simpl; intros; try lia; auto. apply IHl. lia. Qe
 Lemma nth_upd_nth_other : forall A (l : list A) i j x d, i <> j -> nth j (upd_nth l i x) d = nth j l d.
 Proof. induction l; destruct i, j; simpl; intros; try congruence; auto. Qed.
 
+Lemma upd_nth_overflow : forall A (l : list A) i x, (length l <= i)%nat -> upd_nth l i x = l.
+Proof. induction l; destruct i; simpl; intros; auto; try lia. f_equal. apply IHl. lia. Qed.
+
 Lemma nth_error_app_new : forall A (l : list A) x, nth_error (l ++ [x]) (length l) = Some x.
 Proof. induction l; simpl; auto. Qed.
 
